@@ -31,7 +31,7 @@ RULE = ('pool of generated/copied files of self-describing formats (netcdf, IOAP
         'a probe, each in a freshly forked process; compared: reader chosen at every step and registry '
         'order after every step (model), probe reader and data digest vs a fresh process (oracle), '
         'auto-detected vs explicitly named open; non-trivial = history contains at least one '
-        'suffix-matched open of a different format than the probe')
+        'suffix-matched open of a different format than the probe; a punch file only bpch2 reads before ordinary punch files; a two-step gridded file (TSTEP unlimited) before files with a TSTEP of the same length (the unlimited flag is part of the digest)')
 ASSUMPTIONS = ['isMine() answers are measured once per pool file in a fresh process and passed to the model; '
                'the model then predicts every selection and the registry after every step',
                'process-global state other than the registry (module caches) is observed through the probe digest only']
